@@ -23,6 +23,10 @@ pub struct Config {
     /// R-state: calls of these methods / paths get `state_arg` appended as last argument
     /// R-match on `o.map(|p| body)` (opt-in: only where the receiver is an Option)
     pub rmatch_map: bool,
+    /// R-dropstmt: statements (by normalized text prefix) removed from a fragment; each removal is recorded
+    pub drop_stmts: Vec<String>,
+    /// R-for: `for P in E { B }` -> `{ let mut it = E; loop { match it.next() { Some(P) => { B } None => { break; } } } }`
+    pub rfor: bool,
     pub state_methods: Vec<String>,
     pub state_calls: Vec<String>,
     pub state_arg: String,
@@ -51,6 +55,8 @@ impl Config {
             rop: v["rop"].as_bool().unwrap_or(true),
             rderef: v["rderef"].as_bool().unwrap_or(true),
             rmatch_map: v["rmatch_map"].as_bool().unwrap_or(false),
+            drop_stmts: strs(&v["drop_stmts"]).iter().map(|s| norm(s)).collect(),
+            rfor: v["rfor"].as_bool().unwrap_or(false),
             state_methods: strs(&v["state_methods"]),
             state_calls: strs(&v["state_calls"]).iter().map(|s| norm(s)).collect(),
             state_arg: v["state_arg"].as_str().unwrap_or("").to_string(),
@@ -461,6 +467,19 @@ impl<'a, 'ast> Visit<'ast> for Rewriter<'a> {
         self.scopes.pop();
     }
 
+    fn visit_stmt(&mut self, st: &'ast Stmt) {
+        if !self.cfg.drop_stmts.is_empty() {
+            let r = self.r(st.span());
+            let t = norm(self.sf.slice(r));
+            if self.cfg.drop_stmts.iter().any(|p| t.starts_with(p.as_str())) {
+                self.edits.delete(r, "R-dropstmt");
+                self.note("R-dropstmt", st.span());
+                return;
+            }
+        }
+        visit::visit_stmt(self, st);
+    }
+
     fn visit_macro(&mut self, m: &'ast Macro) {
         // expression macros (forward_err!, xraise!, vec!...): the rules apply inside their arguments too
         let args = crate::macro_args(m);
@@ -576,6 +595,28 @@ impl<'a, 'ast> Visit<'ast> for Rewriter<'a> {
         }
     }
     fn visit_expr_for_loop(&mut self, l: &'ast ExprForLoop) {
+        if self.cfg.rfor {
+            // R-for: the language's own desugaring of `for` (IntoIterator::into_iter elided: the
+            // iterated expressions here are iterators already)
+            let for_start = self.r(l.for_token.span).0;
+            let brace_open = self.r(l.body.brace_token.span.open());
+            let brace_close = self.r(l.body.brace_token.span.close());
+            let pr = self.r(l.pat.span());
+            let er = self.r(l.expr.span());
+            self.edits.replace(
+                (for_start, brace_open.0),
+                vec![Piece::Lit("{ let mut __vx_it = ".into()), Piece::Src(er.0, er.1), Piece::Lit("; loop ".into())],
+                "R-for",
+            );
+            self.edits.replace(
+                (brace_open.1, brace_open.1),
+                vec![Piece::Lit(" match __vx_it.next() { Some(".into()), Piece::Src(pr.0, pr.1), Piece::Lit(") => {".into())],
+                "R-for",
+            );
+            self.edits.insert(brace_close.0, "} None => { break; } } ".to_string(), "R-for");
+            self.edits.insert(brace_close.1, " }".to_string(), "R-for");
+            self.note("R-for", l.span());
+        }
         if let Some(d) = self.loop_depth_in_tail.as_mut() {
             *d += 1;
         }
@@ -622,6 +663,34 @@ impl<'a, 'ast> Visit<'ast> for Rewriter<'a> {
                 pieces.push(Piece::Src(r.0, r.1));
                 pieces.push(Piece::Lit(")".into()));
                 self.edits.replace(whole, pieces, "R-op");
+                self.note("R-op", b.span());
+                return;
+            }
+        }
+        if np && self.cfg.rop {
+            let cmp = match &b.op {
+                BinOp::Lt(_) => Some(("PartialOrd", "lt")),
+                BinOp::Le(_) => Some(("PartialOrd", "le")),
+                BinOp::Gt(_) => Some(("PartialOrd", "gt")),
+                BinOp::Ge(_) => Some(("PartialOrd", "ge")),
+                _ => None,
+            };
+            if let Some((tr, m)) = cmp {
+                // `a < b` is `PartialOrd::lt(&a, &b)` (the language's desugaring)
+                let l = self.r(b.left.span());
+                let r = self.r(b.right.span());
+                let whole = self.r(b.span());
+                self.edits.replace(
+                    whole,
+                    vec![
+                        Piece::Lit(format!("core::cmp::{}::{}(&", tr, m)),
+                        Piece::Src(l.0, l.1),
+                        Piece::Lit(", &".into()),
+                        Piece::Src(r.0, r.1),
+                        Piece::Lit(")".into()),
+                    ],
+                    "R-op",
+                );
                 self.note("R-op", b.span());
                 return;
             }
